@@ -28,6 +28,12 @@ func c13Gen(seed uint64, run int, tier string) *Case {
 		c.Cfg["msize"], c.Cfg["smsize"] = int64(ms), int64(ms)
 		c.Cfg["dotu"], c.Cfg["sdotu"] = int64(r.Intn(2)), int64(r.Intn(2))
 		c.Cfg["fault"], c.Cfg["cap"], c.Cfg["holdpct"], c.Cfg["late"] = 0, 0, int64(r.Pick(0, 30)), 0
+		if r.Pct(40) {
+			// the reply stream ends in a frame the client must reject: however the stream is cut, the replies that
+			// precede it are delivered and everything else fails (the oracle is C10's)
+			c.Stratum = "client+garbage-at-the-end"
+			c.Cfg["fault"], c.Cfg["fparam"], c.Cfg["fparam2"], c.Cfg["early"] = 5, int64(r.Intn(300)), int64(r.Intn(64)), 0
+		}
 		n := r.Range(1, 4)
 		for i := 0; i < n; i++ {
 			var ops []Op
